@@ -600,7 +600,7 @@ SUBS = [
                   "duplicate_spend_address"],
         nontrivial_rule="wallet with n >= 2 or a change output"),
     Sub("tampering", check_tamper, strategy=lambda tier: tamper_cases(),
-        budget={"quick": 420, "thorough": 15000},
+        budget={"quick": 520, "thorough": 15000}, min_per_shard=4,
         required=["tamper:" + t for t in TAMPER_OUT + TAMPER_IN] + ["rejected", "spend_kind:op_return_value"],
         nontrivial_rule="every case"),
 ]
